@@ -1302,14 +1302,15 @@ lys_compile_pattern_xmlschema_mce(char esc)
 LY_ERR
 lys_compile_type_pattern_check(const struct ly_ctx *ctx, const char *pattern, pcre2_code **code)
 {
-    size_t idx, size, brack, len;
+    size_t idx, size, brack, len, cls_start = 0;
+    uint64_t sub_mask = 0;
     char *perl_regex;
     int err_code, compile_opts;
     const char *orig_ptr, *members;
     PCRE2_SIZE err_offset;
     pcre2_code *code_local;
     pcre2_compile_context *cctx;
-    ly_bool escaped;
+    ly_bool escaped, is_sub, sub_wrapped = 0, sub_closed = 0;
     LY_ERR r;
 
     /* adjust the expression to a Perl equivalent
@@ -1354,6 +1355,7 @@ lys_compile_type_pattern_check(const struct ly_ctx *ctx, const char *pattern, pc
 
             ++orig_ptr;
             escaped = 0;
+            sub_closed = 0;
             continue;
         }
 
@@ -1374,14 +1376,48 @@ lys_compile_type_pattern_check(const struct ly_ctx *ctx, const char *pattern, pc
         case '\\':
             /*  escape character found or backslash is escaped */
             escaped = !escaped;
+            sub_closed = 0;
             /* copy backslash and continue with the next character */
             perl_regex[idx] = orig_ptr[0];
             ++idx;
             ++orig_ptr;
             continue;
+        case '-':
+            if (brack && !escaped && (orig_ptr[1] == '[')) {
+                /* character class subtraction, "[G-[S]]" is "(?:[G](?<![S]))" for PCRE2: a character of G
+                 * that is not (look-behind of fixed length 1) a character of S */
+                size += 9;
+                perl_regex = ly_realloc(perl_regex, size);
+                LY_CHECK_ERR_RET(!perl_regex, LOGMEM(ctx), LY_EMEM);
+
+                if ((brack == 1) && !sub_wrapped) {
+                    /* group the whole expression so that a quantifier applies to it */
+                    memmove(perl_regex + cls_start + 3, perl_regex + cls_start, idx - cls_start);
+                    memcpy(perl_regex + cls_start, "(?:", 3);
+                    idx += 3;
+                    sub_wrapped = 1;
+                }
+                memcpy(perl_regex + idx, "](?<![", 6);
+                idx += 6;
+
+                ++brack;
+                if (brack < 64) {
+                    sub_mask |= (uint64_t)1 << brack;
+                }
+                orig_ptr += 2;
+                sub_closed = 0;
+                continue;
+            }
+            break;
         case '[':
             if (!escaped) {
+                if (!brack) {
+                    cls_start = idx;
+                }
                 ++brack;
+                if (brack < 64) {
+                    sub_mask &= ~((uint64_t)1 << brack);
+                }
             }
             break;
         case ']':
@@ -1395,7 +1431,25 @@ lys_compile_type_pattern_check(const struct ly_ctx *ctx, const char *pattern, pc
                 free(perl_regex);
                 return LY_EVALID;
             } else if (!escaped) {
+                is_sub = (brack < 64) && ((sub_mask >> brack) & 1);
                 --brack;
+                if (!sub_closed) {
+                    /* (otherwise the members were closed where the subtraction began) */
+                    perl_regex[idx++] = ']';
+                }
+                if (is_sub) {
+                    /* end of a subtrahend, close the look-behind */
+                    perl_regex[idx++] = ')';
+                    sub_closed = 1;
+                } else {
+                    if (!brack && sub_wrapped) {
+                        perl_regex[idx++] = ')';
+                        sub_wrapped = 0;
+                    }
+                    sub_closed = 0;
+                }
+                ++orig_ptr;
+                continue;
             }
             break;
         default:
@@ -1408,6 +1462,7 @@ lys_compile_type_pattern_check(const struct ly_ctx *ctx, const char *pattern, pc
         ++idx;
         ++orig_ptr;
         escaped = 0;
+        sub_closed = 0;
     }
 #ifndef PCRE2_ENDANCHORED
     /* anchor match to end of subject */
